@@ -105,13 +105,15 @@ def enc_obs_term(o):
     return "(EBytes %s %d %s)" % (hexlit(o["bytes"]), o["flags"], opt(o["ext"], hexlit))
 
 
-def dec_obs_term(o):
+def dec_obs_term(o, short=False):
     if o.get("panic") or o.get("crash"):
         return "DPanic"
     if not o["ok"]:
-        return "DErr"
+        return "dE" if short else "DErr"
     if o["same"]:
-        return "(DSame %d %d)" % (o["flags"], o["counter"])
+        return ("(dS %d %d)" if short else "(DSame %d %d)") % (o["flags"], o["counter"])
+    if o.get("re_prefix") is not None:
+        return ("(dP %d %d %d)" if short else "(DPrefix %d %d %d)") % (o["re_prefix"], o["flags"], o["counter"])
     a = o["acd"]
     return "(DVal %s %d %d %s %s %s)" % (
         hexlit(o["hash"]), o["flags"], o["counter"],
@@ -338,6 +340,14 @@ def key_payload_positions(b, case):
                 at = b.find(raw, 55 + idl)
                 if at >= 0:
                     plain |= set(range(at, at + len(raw)))
+    for st in case["steps"]:       # extension secrets
+        for name in ("mc", "ga"):
+            if st.get(name):
+                for v in st[name].values():
+                    if isinstance(v, str) and len(v) >= 16:
+                        at = b.rfind(bytes.fromhex(v))
+                        if at >= 37:
+                            plain |= set(range(at, at + len(v) // 2))
     return plain
 
 
@@ -403,29 +413,38 @@ def check(run):
     # ---- phase 2: every truncation and single-byte corruptions of a spread of encodings
     picks = pick_encodings(run, enc_cases, enc_out, 20 if quick else 200)
     cut_in = [{"op": "cuts", "input": o["bytes"]} for _, o in picks]
-    flip_picks = picks if quick else picks[:40]
-    flip_in = []
+    flip_picks = picks if quick else picks[:60]
+    sweep_picks = picks[:6] if quick else picks[:30]
+    flip_in, sweep_in = [], []
     for c, o in flip_picks:
         b = bytes.fromhex(o["bytes"])
         plain = key_payload_positions(b, c)
         flips = []
         for pos in range(len(b)):
-            if pos in plain:
+            if pos in plain:   # payload byte: one bit, all bits, a random value
                 vals = {b[pos] ^ (1 << rng.randrange(8)), b[pos] ^ 0xFF, rng.randrange(256)}
-            else:
-                vals = set(range(256))           # structural byte: every other value
+            else:              # structural byte: every single-bit corruption and two random values
+                vals = {b[pos] ^ (1 << k) for k in range(8)} | {rng.randrange(256), rng.randrange(256)}
             flips += [[pos, v] for v in sorted(vals) if v != b[pos]]
         flip_in.append({"op": "flips", "input": o["bytes"], "flips": flips})
-    sweep_out = common.harness_run(binary, cut_in + flip_in, nproc=common.NPROC)
+    for c, o in sweep_picks:   # structural bytes: every value
+        b = bytes.fromhex(o["bytes"])
+        plain = key_payload_positions(b, c)
+        struct = [p for p in range(len(b)) if p not in plain]
+        if len(struct) > 40:
+            struct = struct[:25] + rng.sample(struct[25:], 15)
+        sweep_in += [{"op": "sweep", "input": o["bytes"], "pos": p} for p in struct]
+    sweep_out = common.harness_run(binary, cut_in + flip_in + sweep_in, nproc=common.NPROC)
     n_cuts = n_flips = 0
     for c, o in zip(cut_in, sweep_out[:len(cut_in)]):
         outs = o.get("outs")
         if outs is None:
             add("cuts", c, o, "CCuts %s [DPanic]" % hexlit(c["input"])); continue
         n_cuts += len(outs)
-        add("cuts", c, {"accepted_lengths": [i for i, x in enumerate(outs) if x.get("ok")]},
-            "CCuts %s [%s]" % (hexlit(c["input"]), "; ".join(dec_obs_term(x) for x in outs)))
-    for c, o in zip(flip_in, sweep_out[len(cut_in):]):
+        add("cuts", c, {"accepted_lengths": [i for i, x in enumerate(outs) if x.get("ok")],
+                        "panic_lengths": [i for i, x in enumerate(outs) if x.get("panic")]},
+            "CCuts %s [%s]" % (hexlit(c["input"]), "; ".join(dec_obs_term(x, True) for x in outs)))
+    for c, o in zip(flip_in, sweep_out[len(cut_in):len(cut_in) + len(flip_in)]):
         outs = o.get("outs")
         if outs is None:
             add("flips", c, o, "CFlips %s [(0, 0, DPanic)]" % hexlit(c["input"])); continue
@@ -434,7 +453,14 @@ def check(run):
             fl, ou = c["flips"][i:i + 400], outs[i:i + 400]
             n_flips += len(fl)
             add("flips", {"op": "flips", "input": c["input"], "flips": fl}, {"outs": ou},
-                "CFlips %s [%s]" % (hexlit(c["input"]), "; ".join("(%d, %d, %s)" % (p, v, dec_obs_term(x)) for (p, v), x in zip(fl, ou))))
+                "CFlips %s [%s]" % (hexlit(c["input"]), "; ".join("(%d, %d, %s)" % (p, v, dec_obs_term(x, True)) for (p, v), x in zip(fl, ou))))
+    for c, o in zip(sweep_in, sweep_out[len(cut_in) + len(flip_in):]):
+        outs = o.get("outs")
+        if outs is None:
+            add("sweep", c, o, "CSweep %s %d [DPanic]" % (hexlit(c["input"]), c["pos"])); continue
+        n_flips += 255
+        add("flips", {"op": "flips", "input": c["input"], "flips": [[c["pos"], v] for v in range(256)]}, {"outs": outs},
+            "CSweep %s %d [%s]" % (hexlit(c["input"]), c["pos"], "; ".join(dec_obs_term(x, True) for x in outs)))
 
     # ---- phase 3: crafted / random decoder inputs, COSE keys, the constructor's length guard
     dec_in = [{"op": "decode", "input": b.hex()} for b in gen_decode_inputs(run, [o["bytes"] for _, o in picks])]
@@ -495,10 +521,10 @@ def check(run):
         "distinct_nontrivial": len(sig),
         "rule": "encode: id lengths %s x all 16 user flag sets x extension variants %s x counters incl. None/0/2^32-1, setter orders, repeated setters, random; "
                 "plus out-of-scope builders (AT/ED via set_flags, pub-field assignment) for model correspondence only; "
-                "decode: every truncation of %d encodings, single-byte corruptions of %d (structural bytes: all 255 values; payload bytes: 3 values), "
+                "decode: every truncation of %d encodings, single-byte corruptions of %d (structural bytes: all 8 single-bit flips + 2 random values, and every value 0..255 on %d (position, encoding) pairs; payload bytes: 3 values), "
                 "all 256 flag bytes on 4 bodies, length boundary, crafted COSE keys (order, duplicates, registries, kid/iv/key_ops), trailing bytes, random; "
                 "cose: random key maps through CoseKey::from_cbor_value/to_vec; distinct = structural signature per kind"
-                % (ID_LENS, EXT_VARIANTS, len(cut_in), len(flip_in)),
+                % (ID_LENS, EXT_VARIANTS, len(cut_in), len(flip_in), len(sweep_in)),
         "samples": [terms[len(corpus())][:300], next((t for t in terms if t.startswith("CCuts")), "")[:300], terms[-20][:300]],
         "model_disagreements": len(res["agree"]), "oracle_failures": len(res["oracle"]),
         "encode_cases": len(enc_cases), "cut_inputs": n_cuts, "flip_inputs": n_flips, "decode_cases": len(dec_in),
@@ -527,6 +553,9 @@ def narrow(binary, kind, c, o):
     """reduce a failing sweep case to one input"""
     if kind == "cuts":
         b = bytes.fromhex(c["input"])
+        for n in o.get("panic_lengths", []):
+            c2 = {"op": "decode", "input": b[:n].hex(), "note": "from_slice panics on this %d-byte prefix of a valid encoding" % n, "full": c["input"]}
+            return c2, common.harness_one(binary, c2)
         for n in o.get("accepted_lengths", []):
             if n < len(b):
                 c2 = {"op": "decode", "input": b[:n].hex(), "note": "strict prefix (%d of %d bytes) of a valid encoding is accepted" % (n, len(b)), "full": c["input"]}
